@@ -512,6 +512,22 @@ impl<T: Eq + Hash> FrequentItemsSketch<T> {
             .map_err(insufficient_data("stream_weight"))?;
         let offset_val = cursor.read_u64_le().map_err(insufficient_data("offset"))?;
 
+        // Nothing is allocated for the counters before they are known to be present and to
+        // fit the announced map (the writer never exceeds the current capacity).
+        let payload_size = bytes.len() - PREAMBLE_LONGS_NONEMPTY as usize * 8;
+        if payload_size / 8 < active_items {
+            return Err(Error::insufficient_data(format!(
+                "expected {active_items} weights, found {} bytes",
+                payload_size
+            )));
+        }
+        let cur_map_size = 1usize << lg_cur.max(LG_MIN_MAP_SIZE);
+        if active_items > cur_map_size / LOAD_FACTOR_DENOMINATOR * LOAD_FACTOR_NUMERATOR {
+            return Err(Error::deserial(
+                "active_items exceeds the capacity of the current map",
+            ));
+        }
+
         let mut values = Vec::with_capacity(active_items);
         for i in 0..active_items {
             values.push(cursor.read_u64_le().map_err(|_| {
